@@ -226,17 +226,25 @@ static void onSegv(int sig, siginfo_t* si, void* ucv) {
         return;   // the mutex' own state word, written by the lock/unlock call itself
     }
     if (t_canary) { errno = savedErrno; return; }
-    void* raw[MAXFR + 8];
-    int n = backtrace(raw, MAXFR + 8);
     void* rip = (void*)uc->uc_mcontext.gregs[REG_RIP];
-    int first = -1;
-    for (int i = 0; i < n; ++i) if (raw[i] == rip) { first = i; break; }
-    void* fr[MAXFR]; int nfr = 0;
-    if (first < 0) { fr[nfr++] = rip; first = n; }   // unwinder could not cross the signal frame: keep the pc
-    for (int i = first; i < n && nfr < MAXFR; ++i) fr[nfr++] = raw[i];
     size_t off = size_t(addr - g_base);
     int obj = objectOf(off);
     int locks = t_locks;
+    void* fr[MAXFR]; int nfr = 0;
+    // a store under a mutex is accepted by the rule whatever its call site: unwind the stack only the first time this
+    // instruction stores into this object under a lock (the unwinder costs more than the two signals)
+    bool unwind = true;
+    if (locks > 0) {
+        unsigned long long k0 = ((unsigned long long)(uintptr_t)rip * 1099511628211ull) ^ (unsigned long long)(obj + 1) ^ 0x5bd1e995ull;
+        unwind = firstTime(k0);
+        if (!unwind) { errno = savedErrno; return; }
+    }
+    void* raw[MAXFR + 8];
+    int n = backtrace(raw, MAXFR + 8);
+    int first = -1;
+    for (int i = 0; i < n; ++i) if (raw[i] == rip) { first = i; break; }
+    if (first < 0) { fr[nfr++] = rip; first = n; }   // unwinder could not cross the signal frame: keep the pc
+    for (int i = first; i < n && nfr < MAXFR; ++i) fr[nfr++] = raw[i];
     unsigned long long key = 1469598103934665603ull;
     for (int i = 0; i < nfr; ++i) { key ^= (unsigned long long)(uintptr_t)fr[i]; key *= 1099511628211ull; }
     key ^= (unsigned long long)(obj * 2 + (locks > 0 ? 1 : 0)); key *= 1099511628211ull;
